@@ -169,6 +169,13 @@ func runCheck(eng *Engine, prop, tier string, verbose, noReplay bool) int {
 			fns = append(fns, fnInfo{l.Key, r.Where, 0, 0})
 		}
 	}
+	for _, fl := range eng.cs.FloatLemmas {
+		if hasProp(fl.Props, prop) {
+			r := eng.verifyFloatLemma(fl, timeout)
+			results = append(results, r)
+			fns = append(fns, fnInfo{r.Key, r.Where, 0, 0})
+		}
+	}
 	genSecs := time.Since(tGen).Seconds()
 	tSolve := time.Now()
 	dischargeAll(results, timeout, workers())
